@@ -89,3 +89,60 @@ var worldAnon = &world{
 		{name: "broken", valid: false, text: "a = 1; b = ;"},
 	},
 }
+
+// W-defs: a lookahead group that scans over a whole nested production — (?= @@ "=") — after
+// captures of the same sequence are already pending ("export" modifier, name).
+type dfProgram struct {
+	Pos   lexer.Position
+	Stmts []*dfStmt `( @@ ";" )*`
+}
+
+type dfStmt struct {
+	Def  *dfDef  `  @@`
+	Call *dfCall `| @@`
+	Let  *dfLet  `| @@`
+}
+
+type dfDef struct {
+	Export bool      `@"export"?`
+	Name   string    `@Ident`
+	Params *dfParams `(?= @@ "=") @@`
+	Body   *dfExpr   `"=" @@`
+}
+
+type dfLet struct {
+	Name  string  `@Ident`
+	Value *dfExpr `"=" @@`
+}
+
+type dfCall struct {
+	Name string    `@Ident`
+	Args *dfParams `@@`
+}
+
+type dfParams struct {
+	Items []*dfExpr `"(" ( @@ ( "," @@ )* )? ")"`
+}
+
+type dfExpr struct {
+	Name   string `  @Ident`
+	Number *int   `| @Int`
+}
+
+var worldDefs = &world{
+	name: "defs", lexerKind: "text/scanner", junk: "\n) =",
+	build: func(o buildOpts) PH {
+		return mustPH[dfProgram]([]string{"Comment"}, applyCommon(o, commentScanner(), nil)...)
+	},
+	docs: []doc{
+		{name: "lets", valid: true, text: "x = 1; y = x;"},
+		{name: "definitions", valid: true, text: "f(a, b) = a; g() = 1;"},
+		{name: "calls", valid: true, text: "x = 1; f(x); f(1, 2);"},
+		{name: "exported", valid: true, text: "export f(a, b) = a; x = 1; export g() = x;"},
+		flatDoc("flat", "", "export h(a) = a; k(1);", ""),
+		{name: "empty", valid: true, text: ""},
+		{name: "unclosed-def", valid: false, text: "f(a, b = a;"},
+		{name: "unclosed-exported", valid: false, text: "export f(a, b = a;"},
+		{name: "call-with-junk", valid: false, text: "f(a) 1;"},
+	},
+}
